@@ -402,3 +402,97 @@ Proof.
     + exfalso. clear - S T RL RT HB Hq. lia.
     + apply mod_eq_m1. { clear - S T RL RT HB. lia. } clear - S T. lia.
 Qed.
+
+(* fp_sub / fp_opp (12 limbs): the same statements and the same argument *)
+Lemma fp_sub_spec a b : limbs_ok 12 a -> limbs_ok 12 b -> ev a < Certs.p -> ev b < Certs.p ->
+  limbs_ok 12 (fp_sub a b) /\ ev (fp_sub a b) = (ev a - ev b) mod Certs.p.
+Proof.
+  intros Ha Hb. destruct (limbs_ok_12 a Ha) as (a0&a1&a2&a3&a4&a5&a6&a7&a8&a9&a10&a11&->&?&?&?&?&?&?&?&?&?&?&?&?).
+  destruct (limbs_ok_12 b Hb) as (b0&b1&b2&b3&b4&b5&b6&b7&b8&b9&b10&b11&->&?&?&?&?&?&?&?&?&?&?&?&?). clear Ha Hb.
+  intros HA HB. cbv beta iota delta [ev fold_right] in HA, HB.
+  match goal with |- limbs_ok 12 ?oo /\ ev ?oo = ?rr => pose (Q := fun o => limbs_ok 12 o /\ ev o = rr); change (Q oo) end.
+  cbv beta iota delta [fp_sub nth]. eval_closed.
+  do 12 step2 fp_sl. eval_closed. step1 fp_cl.
+  repeat match goal with H : _ /\ _ |- _ => destruct H end.
+  assert (S : v + 2^32*v0 + 2^64*v1 + 2^96*v2 + 2^128*v3 + 2^160*v4 + 2^192*v5 + 2^224*v6 + 2^256*v7 + 2^288*v8 + 2^320*v9 + 2^352*v10 - 2^384*k10 = (a0 + 2^32*(a1 + 2^32*(a2 + 2^32*(a3 + 2^32*(a4 + 2^32*(a5 + 2^32*(a6 + 2^32*(a7 + 2^32*(a8 + 2^32*(a9 + 2^32*(a10 + 2^32*(a11 + 2^32*0)))))))))))) - (b0 + 2^32*(b1 + 2^32*(b2 + 2^32*(b3 + 2^32*(b4 + 2^32*(b5 + 2^32*(b6 + 2^32*(b7 + 2^32*(b8 + 2^32*(b9 + 2^32*(b10 + 2^32*(b11 + 2^32*0))))))))))))) by (clear HA HB; lia).
+  assert (KB : 0 <= k10 <= 1) by (split; assumption).
+  split_bit k10; match goal with H : r = _ |- _ => cbn [Z.eqb] in H end; subst r; eval_closed.
+  all: do 12 step2 fp_al.
+  all: subst Q; cbv beta iota delta [ev fold_right limbs_ok length].
+  all: repeat match goal with H : _ /\ _ |- _ => destruct H end.
+  - assert (T : v11 + 2^32*v12 + 2^64*v13 + 2^96*v14 + 2^128*v15 + 2^160*v16 + 2^192*v17 + 2^224*v18 + 2^256*v19 + 2^288*v20 + 2^320*v21 + 2^352*v22 + 2^384*k21 = v + 2^32*v0 + 2^64*v1 + 2^96*v2 + 2^128*v3 + 2^160*v4 + 2^192*v5 + 2^224*v6 + 2^256*v7 + 2^288*v8 + 2^320*v9 + 2^352*v10 + 0) by (clear HA HB S; unfold Certs.p; lia).
+    assert (RL : 0 <= v + 2^32*v0 + 2^64*v1 + 2^96*v2 + 2^128*v3 + 2^160*v4 + 2^192*v5 + 2^224*v6 + 2^256*v7 + 2^288*v8 + 2^320*v9 + 2^352*v10 < 2^384) by (clear HA HB S T; lia).
+    assert (RT : 0 <= v11 + 2^32*v12 + 2^64*v13 + 2^96*v14 + 2^128*v15 + 2^160*v16 + 2^192*v17 + 2^224*v18 + 2^256*v19 + 2^288*v20 + 2^320*v21 + 2^352*v22 < 2^384) by (clear HA HB S T RL; lia).
+    assert (RA : 0 <= a0 + 2^32*(a1 + 2^32*(a2 + 2^32*(a3 + 2^32*(a4 + 2^32*(a5 + 2^32*(a6 + 2^32*(a7 + 2^32*(a8 + 2^32*(a9 + 2^32*(a10 + 2^32*(a11 + 2^32*0)))))))))))) by (clear HA HB S T RL RT; lia).
+    assert (RB : 0 <= b0 + 2^32*(b1 + 2^32*(b2 + 2^32*(b3 + 2^32*(b4 + 2^32*(b5 + 2^32*(b6 + 2^32*(b7 + 2^32*(b8 + 2^32*(b9 + 2^32*(b10 + 2^32*(b11 + 2^32*0)))))))))))) by (clear HA HB S T RL RT; lia).
+    split. { split. reflexivity. repeat constructor; lia. }
+    replace (v11 + 2^32*(v12 + 2^32*(v13 + 2^32*(v14 + 2^32*(v15 + 2^32*(v16 + 2^32*(v17 + 2^32*(v18 + 2^32*(v19 + 2^32*(v20 + 2^32*(v21 + 2^32*(v22 + 2^32*0)))))))))))) with (v11 + 2^32*v12 + 2^64*v13 + 2^96*v14 + 2^128*v15 + 2^160*v16 + 2^192*v17 + 2^224*v18 + 2^256*v19 + 2^288*v20 + 2^320*v21 + 2^352*v22) by ring.
+    set (A := a0 + 2^32*(a1 + 2^32*(a2 + 2^32*(a3 + 2^32*(a4 + 2^32*(a5 + 2^32*(a6 + 2^32*(a7 + 2^32*(a8 + 2^32*(a9 + 2^32*(a10 + 2^32*(a11 + 2^32*0)))))))))))) in *. set (B := b0 + 2^32*(b1 + 2^32*(b2 + 2^32*(b3 + 2^32*(b4 + 2^32*(b5 + 2^32*(b6 + 2^32*(b7 + 2^32*(b8 + 2^32*(b9 + 2^32*(b10 + 2^32*(b11 + 2^32*0)))))))))))) in *. set (L := v + 2^32*v0 + 2^64*v1 + 2^96*v2 + 2^128*v3 + 2^160*v4 + 2^192*v5 + 2^224*v6 + 2^256*v7 + 2^288*v8 + 2^320*v9 + 2^352*v10) in *. set (TL := v11 + 2^32*v12 + 2^64*v13 + 2^96*v14 + 2^128*v15 + 2^160*v16 + 2^192*v17 + 2^224*v18 + 2^256*v19 + 2^288*v20 + 2^320*v21 + 2^352*v22) in *.
+    clearbody A B L TL.
+    assert (Hq : 0 < Certs.p < 2^384) by (unfold Certs.p; lia).
+    assert (KC : 0 <= k21 <= 1) by (split; assumption).
+    clear - S T RL RT RA HA RB HB Hq KC. unfold Certs.p in *.
+    split_bit k21.
+    + apply mod_eq_0. { clear - S T HA RB RT. lia. } clear - S T. lia.
+    + exfalso. clear - S T RL RT. lia.
+  - assert (T : v11 + 2^32*v12 + 2^64*v13 + 2^96*v14 + 2^128*v15 + 2^160*v16 + 2^192*v17 + 2^224*v18 + 2^256*v19 + 2^288*v20 + 2^320*v21 + 2^352*v22 + 2^384*k21 = v + 2^32*v0 + 2^64*v1 + 2^96*v2 + 2^128*v3 + 2^160*v4 + 2^192*v5 + 2^224*v6 + 2^256*v7 + 2^288*v8 + 2^320*v9 + 2^352*v10 + Certs.p) by (clear HA HB S; unfold Certs.p; lia).
+    assert (RL : 0 <= v + 2^32*v0 + 2^64*v1 + 2^96*v2 + 2^128*v3 + 2^160*v4 + 2^192*v5 + 2^224*v6 + 2^256*v7 + 2^288*v8 + 2^320*v9 + 2^352*v10 < 2^384) by (clear HA HB S T; lia).
+    assert (RT : 0 <= v11 + 2^32*v12 + 2^64*v13 + 2^96*v14 + 2^128*v15 + 2^160*v16 + 2^192*v17 + 2^224*v18 + 2^256*v19 + 2^288*v20 + 2^320*v21 + 2^352*v22 < 2^384) by (clear HA HB S T RL; lia).
+    assert (RA : 0 <= a0 + 2^32*(a1 + 2^32*(a2 + 2^32*(a3 + 2^32*(a4 + 2^32*(a5 + 2^32*(a6 + 2^32*(a7 + 2^32*(a8 + 2^32*(a9 + 2^32*(a10 + 2^32*(a11 + 2^32*0)))))))))))) by (clear HA HB S T RL RT; lia).
+    assert (RB : 0 <= b0 + 2^32*(b1 + 2^32*(b2 + 2^32*(b3 + 2^32*(b4 + 2^32*(b5 + 2^32*(b6 + 2^32*(b7 + 2^32*(b8 + 2^32*(b9 + 2^32*(b10 + 2^32*(b11 + 2^32*0)))))))))))) by (clear HA HB S T RL RT; lia).
+    split. { split. reflexivity. repeat constructor; lia. }
+    replace (v11 + 2^32*(v12 + 2^32*(v13 + 2^32*(v14 + 2^32*(v15 + 2^32*(v16 + 2^32*(v17 + 2^32*(v18 + 2^32*(v19 + 2^32*(v20 + 2^32*(v21 + 2^32*(v22 + 2^32*0)))))))))))) with (v11 + 2^32*v12 + 2^64*v13 + 2^96*v14 + 2^128*v15 + 2^160*v16 + 2^192*v17 + 2^224*v18 + 2^256*v19 + 2^288*v20 + 2^320*v21 + 2^352*v22) by ring.
+    set (A := a0 + 2^32*(a1 + 2^32*(a2 + 2^32*(a3 + 2^32*(a4 + 2^32*(a5 + 2^32*(a6 + 2^32*(a7 + 2^32*(a8 + 2^32*(a9 + 2^32*(a10 + 2^32*(a11 + 2^32*0)))))))))))) in *. set (B := b0 + 2^32*(b1 + 2^32*(b2 + 2^32*(b3 + 2^32*(b4 + 2^32*(b5 + 2^32*(b6 + 2^32*(b7 + 2^32*(b8 + 2^32*(b9 + 2^32*(b10 + 2^32*(b11 + 2^32*0)))))))))))) in *. set (L := v + 2^32*v0 + 2^64*v1 + 2^96*v2 + 2^128*v3 + 2^160*v4 + 2^192*v5 + 2^224*v6 + 2^256*v7 + 2^288*v8 + 2^320*v9 + 2^352*v10) in *. set (TL := v11 + 2^32*v12 + 2^64*v13 + 2^96*v14 + 2^128*v15 + 2^160*v16 + 2^192*v17 + 2^224*v18 + 2^256*v19 + 2^288*v20 + 2^320*v21 + 2^352*v22) in *.
+    clearbody A B L TL.
+    assert (Hq : 0 < Certs.p < 2^384) by (unfold Certs.p; lia).
+    assert (KC : 0 <= k21 <= 1) by (split; assumption).
+    clear - S T RL RT RA HA RB HB Hq KC. unfold Certs.p in *.
+    split_bit k21.
+    + exfalso. clear - S T RL RT RA HB Hq. lia.
+    + apply mod_eq_m1. { clear - S T RL RT RA HB. lia. } clear - S T. lia.
+Qed.
+
+Lemma fp_opp_spec b : limbs_ok 12 b -> ev b < Certs.p ->
+  limbs_ok 12 (fp_opp b) /\ ev (fp_opp b) = (- ev b) mod Certs.p.
+Proof.
+  intros Hb. destruct (limbs_ok_12 b Hb) as (b0&b1&b2&b3&b4&b5&b6&b7&b8&b9&b10&b11&->&?&?&?&?&?&?&?&?&?&?&?&?). clear Hb.
+  intros HB. cbv beta iota delta [ev fold_right] in HB.
+  match goal with |- limbs_ok 12 ?oo /\ ev ?oo = ?rr => pose (Q := fun o => limbs_ok 12 o /\ ev o = rr); change (Q oo) end.
+  cbv beta iota delta [fp_opp nth]. eval_closed.
+  do 12 step2 fp_sl. eval_closed. step1 fp_cl.
+  repeat match goal with H : _ /\ _ |- _ => destruct H end.
+  assert (S : v + 2^32*v0 + 2^64*v1 + 2^96*v2 + 2^128*v3 + 2^160*v4 + 2^192*v5 + 2^224*v6 + 2^256*v7 + 2^288*v8 + 2^320*v9 + 2^352*v10 - 2^384*k10 = - (b0 + 2^32*(b1 + 2^32*(b2 + 2^32*(b3 + 2^32*(b4 + 2^32*(b5 + 2^32*(b6 + 2^32*(b7 + 2^32*(b8 + 2^32*(b9 + 2^32*(b10 + 2^32*(b11 + 2^32*0))))))))))))) by (clear HB; lia).
+  assert (KB : 0 <= k10 <= 1) by (split; assumption).
+  split_bit k10; match goal with H : r = _ |- _ => cbn [Z.eqb] in H end; subst r; eval_closed.
+  all: do 12 step2 fp_al.
+  all: subst Q; cbv beta iota delta [ev fold_right limbs_ok length].
+  all: repeat match goal with H : _ /\ _ |- _ => destruct H end.
+  - assert (T : v11 + 2^32*v12 + 2^64*v13 + 2^96*v14 + 2^128*v15 + 2^160*v16 + 2^192*v17 + 2^224*v18 + 2^256*v19 + 2^288*v20 + 2^320*v21 + 2^352*v22 + 2^384*k21 = v + 2^32*v0 + 2^64*v1 + 2^96*v2 + 2^128*v3 + 2^160*v4 + 2^192*v5 + 2^224*v6 + 2^256*v7 + 2^288*v8 + 2^320*v9 + 2^352*v10 + 0) by (clear HB S; unfold Certs.p; lia).
+    assert (RL : 0 <= v + 2^32*v0 + 2^64*v1 + 2^96*v2 + 2^128*v3 + 2^160*v4 + 2^192*v5 + 2^224*v6 + 2^256*v7 + 2^288*v8 + 2^320*v9 + 2^352*v10 < 2^384) by (clear HB S T; lia).
+    assert (RT : 0 <= v11 + 2^32*v12 + 2^64*v13 + 2^96*v14 + 2^128*v15 + 2^160*v16 + 2^192*v17 + 2^224*v18 + 2^256*v19 + 2^288*v20 + 2^320*v21 + 2^352*v22 < 2^384) by (clear HB S T RL; lia).
+    assert (RB : 0 <= b0 + 2^32*(b1 + 2^32*(b2 + 2^32*(b3 + 2^32*(b4 + 2^32*(b5 + 2^32*(b6 + 2^32*(b7 + 2^32*(b8 + 2^32*(b9 + 2^32*(b10 + 2^32*(b11 + 2^32*0)))))))))))) by (clear HB S T RL RT; lia).
+    split. { split. reflexivity. repeat constructor; lia. }
+    replace (v11 + 2^32*(v12 + 2^32*(v13 + 2^32*(v14 + 2^32*(v15 + 2^32*(v16 + 2^32*(v17 + 2^32*(v18 + 2^32*(v19 + 2^32*(v20 + 2^32*(v21 + 2^32*(v22 + 2^32*0)))))))))))) with (v11 + 2^32*v12 + 2^64*v13 + 2^96*v14 + 2^128*v15 + 2^160*v16 + 2^192*v17 + 2^224*v18 + 2^256*v19 + 2^288*v20 + 2^320*v21 + 2^352*v22) by ring.
+    set (B := b0 + 2^32*(b1 + 2^32*(b2 + 2^32*(b3 + 2^32*(b4 + 2^32*(b5 + 2^32*(b6 + 2^32*(b7 + 2^32*(b8 + 2^32*(b9 + 2^32*(b10 + 2^32*(b11 + 2^32*0)))))))))))) in *. set (L := v + 2^32*v0 + 2^64*v1 + 2^96*v2 + 2^128*v3 + 2^160*v4 + 2^192*v5 + 2^224*v6 + 2^256*v7 + 2^288*v8 + 2^320*v9 + 2^352*v10) in *. set (TL := v11 + 2^32*v12 + 2^64*v13 + 2^96*v14 + 2^128*v15 + 2^160*v16 + 2^192*v17 + 2^224*v18 + 2^256*v19 + 2^288*v20 + 2^320*v21 + 2^352*v22) in *.
+    clearbody B L TL.
+    assert (Hq : 0 < Certs.p < 2^384) by (unfold Certs.p; lia).
+    assert (KC : 0 <= k21 <= 1) by (split; assumption).
+    clear - S T RL RT RB HB Hq KC. unfold Certs.p in *.
+    split_bit k21.
+    + apply mod_eq_0. { clear - S T RB RT Hq. lia. } clear - S T. lia.
+    + exfalso. clear - S T RL RT. lia.
+  - assert (T : v11 + 2^32*v12 + 2^64*v13 + 2^96*v14 + 2^128*v15 + 2^160*v16 + 2^192*v17 + 2^224*v18 + 2^256*v19 + 2^288*v20 + 2^320*v21 + 2^352*v22 + 2^384*k21 = v + 2^32*v0 + 2^64*v1 + 2^96*v2 + 2^128*v3 + 2^160*v4 + 2^192*v5 + 2^224*v6 + 2^256*v7 + 2^288*v8 + 2^320*v9 + 2^352*v10 + Certs.p) by (clear HB S; unfold Certs.p; lia).
+    assert (RL : 0 <= v + 2^32*v0 + 2^64*v1 + 2^96*v2 + 2^128*v3 + 2^160*v4 + 2^192*v5 + 2^224*v6 + 2^256*v7 + 2^288*v8 + 2^320*v9 + 2^352*v10 < 2^384) by (clear HB S T; lia).
+    assert (RT : 0 <= v11 + 2^32*v12 + 2^64*v13 + 2^96*v14 + 2^128*v15 + 2^160*v16 + 2^192*v17 + 2^224*v18 + 2^256*v19 + 2^288*v20 + 2^320*v21 + 2^352*v22 < 2^384) by (clear HB S T RL; lia).
+    assert (RB : 0 <= b0 + 2^32*(b1 + 2^32*(b2 + 2^32*(b3 + 2^32*(b4 + 2^32*(b5 + 2^32*(b6 + 2^32*(b7 + 2^32*(b8 + 2^32*(b9 + 2^32*(b10 + 2^32*(b11 + 2^32*0)))))))))))) by (clear HB S T RL RT; lia).
+    split. { split. reflexivity. repeat constructor; lia. }
+    replace (v11 + 2^32*(v12 + 2^32*(v13 + 2^32*(v14 + 2^32*(v15 + 2^32*(v16 + 2^32*(v17 + 2^32*(v18 + 2^32*(v19 + 2^32*(v20 + 2^32*(v21 + 2^32*(v22 + 2^32*0)))))))))))) with (v11 + 2^32*v12 + 2^64*v13 + 2^96*v14 + 2^128*v15 + 2^160*v16 + 2^192*v17 + 2^224*v18 + 2^256*v19 + 2^288*v20 + 2^320*v21 + 2^352*v22) by ring.
+    set (B := b0 + 2^32*(b1 + 2^32*(b2 + 2^32*(b3 + 2^32*(b4 + 2^32*(b5 + 2^32*(b6 + 2^32*(b7 + 2^32*(b8 + 2^32*(b9 + 2^32*(b10 + 2^32*(b11 + 2^32*0)))))))))))) in *. set (L := v + 2^32*v0 + 2^64*v1 + 2^96*v2 + 2^128*v3 + 2^160*v4 + 2^192*v5 + 2^224*v6 + 2^256*v7 + 2^288*v8 + 2^320*v9 + 2^352*v10) in *. set (TL := v11 + 2^32*v12 + 2^64*v13 + 2^96*v14 + 2^128*v15 + 2^160*v16 + 2^192*v17 + 2^224*v18 + 2^256*v19 + 2^288*v20 + 2^320*v21 + 2^352*v22) in *.
+    clearbody B L TL.
+    assert (Hq : 0 < Certs.p < 2^384) by (unfold Certs.p; lia).
+    assert (KC : 0 <= k21 <= 1) by (split; assumption).
+    clear - S T RL RT RB HB Hq KC. unfold Certs.p in *.
+    split_bit k21.
+    + exfalso. clear - S T RL RT HB Hq. lia.
+    + apply mod_eq_m1. { clear - S T RL RT HB. lia. } clear - S T. lia.
+Qed.
